@@ -116,6 +116,7 @@ def generic_core(ctx, rep):
     generic_tables.rule_worklist(ctx, rep)
     stack_rules.rule_stack_discipline(ctx, rep, full=False)
     spelling.rule_constant_block(ctx, rep)
+    effects.rule_pure_lattice(ctx, rep)
 
 
 @prop("C03", "Decides the structural clauses of C03 (exactness of the transfer tables on direct checks): (T-COMB) Boolean "
@@ -307,6 +308,8 @@ def c14(ctx, rep):
     effects.rule_shared_roots(ctx, rep)
     effects.rule_hash_order(ctx, rep)
     effects.rule_context_writers(ctx, rep)
+    effects.rule_mutable_defaults(ctx, rep)
+    effects.rule_pure_lattice(ctx, rep)
     cmptables.rule_addr_store(ctx, rep)
     cmptables.rule_int_store(ctx, rep)
     cmptables.rule_universe_fresh(ctx, rep)
